@@ -96,9 +96,9 @@ Proof.
         destruct N2 as [N4 [N5 N6]]. apply NoDup_app_iff2. split; [exact N1|]. split; [exact N5|].
         intros z Hz1 Hz2. apply (N3 z Hz1). apply in_app_iff. right. exact Hz2. }
       constructor; [|constructor; [|exact S1]].
-      * intros [Q|Q]; [congruence|]. apply Nx. right. rewrite !in_app_iff in *. tauto.
-      * intros Q. apply Ny. rewrite !in_app_iff in *. tauto.
-    + intros z Hz Q. apply (DI' J PJ z Hz). simpl in *. rewrite !in_app_iff in *. tauto.
+      * intros [Q|Q]; [congruence|]. apply Nx. right. clear - Q. rewrite !in_app_iff in *. tauto.
+      * intros Q. apply Ny. clear - Q. rewrite !in_app_iff in *. tauto.
+    + intros z Hz Q. apply (DI' J PJ z Hz). clear - Q. simpl in *. rewrite !in_app_iff in *. tauto.
   - intros J' PJ'.
     assert (P2 : Permutation ((x :: q ++ [y]) ++ J') (J' ++ x :: y :: q)).
     { rewrite Permutation_app_comm. apply Permutation_app_head. constructor.
@@ -112,9 +112,12 @@ Proof.
       * intros [Q|Q]; [congruence|]. apply Nx. right. rewrite !in_app_iff. tauto.
       * intros Q. apply Ny. rewrite !in_app_iff. tauto.
     + intros z Hz Q. apply (DI' J' PJ' z Hz). simpl in *. rewrite !in_app_iff. tauto.
-  - intros z Hz. rewrite !in_app_iff in *. simpl in *. rewrite !in_app_iff in *. simpl in *.
-    destruct Hz as [Hz|[Hz|Hz]]; [tauto|tauto|].
-    destruct Hz as [Hz|Hz]; [|tauto].
-    right. eapply Permutation_in; [exact PJ|exact Hz].
-  - intros z Hz. simpl in Hz. rewrite !in_app_iff in *. simpl in *. rewrite !in_app_iff. simpl. tauto.
+  - intros z Hz.
+    assert (PJ' : forall w, In w J -> In w I) by (intros w; apply Permutation_in; exact PJ).
+    clear - Hz PJ'. rewrite !in_app_iff in Hz. simpl in Hz. rewrite !in_app_iff in Hz. simpl in Hz.
+    rewrite !in_app_iff. simpl. rewrite !in_app_iff. simpl.
+    destruct Hz as [Hz|[Hz|[Hz|[Hz|Hz]]]]; auto 7.
+  - intros z Hz. clear - Hz. simpl in Hz. rewrite !in_app_iff in Hz. simpl in Hz.
+    rewrite !in_app_iff. simpl. rewrite !in_app_iff. simpl.
+    destruct Hz as [Hz|[Hz|[Hz|[]]]]; auto 7.
 Qed.
